@@ -116,6 +116,7 @@ Inductive replyk :=
 | KNew (rid : bytes).
 Inductive panick :=
 | PErr (e : rerr) | PNilErr | PGoErr (msg : bytes) | PStr (s : bytes) | POther (text : bytes).
+Inductive parse_out := ParseOk (seen : bytes) | ParseFail (errmsg : bytes).
 Inductive action :=
 | AReply (k : replyk)
 | ATimeout (ms : Z)                 (* r.Timeout(ms * time.Millisecond) *)
@@ -124,7 +125,11 @@ Inductive action :=
 | ASetStatus (n : Z)                (* r.SetResponseStatus(n) *)
 | AHeader (k v : bytes)             (* h := r.ResponseHeader(); h[k] = append(h[k], v) *)
 | ATokenEvent (v : val)             (* r.TokenEvent(v) *)
-| AValue (require : bool).          (* r.Value() / r.RequireValue() *)
+| AValue (require : bool)           (* r.Value() / r.RequireValue() *)
+| AParse (token : bool) (zero : bytes) (o : parse_out).
+  (* r.ParseParams(&t) / r.ParseToken(&t) into a typed target t.  encoding/json is trusted: [o] is
+     json.Unmarshal's outcome for THIS request's raw params/token and the target's type (the value the
+     target then holds, re-marshalled, or the error text), [zero] the target's untouched value. *)
 Definition script := list action.
 
 (* res.Handler as far as requests are concerned; [h_pid] identifies the registered pattern *)
@@ -153,7 +158,8 @@ Record obs := Obs {
   o_host : bytes; o_raddr : bytes; o_uri : bytes; o_ishttp : bool }.
 Inductive lentry :=
 | LInvoke (o : obs)
-| LValue (v : val) (e : option gerr).     (* what Value()/RequireValue() returned *)
+| LValue (v : val) (e : option gerr)      (* what Value()/RequireValue() returned *)
+| LParsed (token : bool) (seen : bytes).  (* what the target of ParseParams/ParseToken holds afterwards *)
 
 (* ---------- handleRequest: subject split ---------- *)
 Definition t_access := s2b "access".
@@ -313,7 +319,7 @@ Definition gstep (c : ctx) (g : gstate) (a : action) : gstate * option pval :=
   | APanic p => (g, Some (panic_val p))
   | AValue false => (g, Some (PVStr (s2b "Value() called within get request handler")))
   | AValue true => (g, Some (PVStr (s2b "RequireValue() called within get request handler")))
-  | ASetStatus _ | AHeader _ _ | ATokenEvent _ => (g, None)
+  | ASetStatus _ | AHeader _ _ | ATokenEvent _ | AParse _ _ _ => (g, None)
   end.
 Fixpoint run_gscript (c : ctx) (g : gstate) (sc : script) : gstate * option pval :=
   match sc with
@@ -380,6 +386,15 @@ Definition step (c : ctx) (s : rstate) (a : action) : rstate * option pval :=
     if val_ok v then
       (publish s (token_subject (q_cid (c_d c))) (PEvt (Some (JObj [(s2b "token", to_jv v)]))), None)
     else (s, None)
+  | AParse tk zero o =>
+    (* no params/token: nothing is decoded; a decode error panics with a system.invalidParams
+       (params) resp. system.internalError (token) error of the library's type *)
+    if is_nil (if tk then q_token (c_d c) else q_params (c_d c)) then (add_log s (LParsed tk zero), None)
+    else match o with
+         | ParseOk v => (add_log s (LParsed tk v), None)
+         | ParseFail m =>
+           (s, Some (PVError (GErr (Some (if tk then internal m else RErr code_invalid_params m VNull)))))
+         end
   | AValue require =>
     match run_get c with
     | (ms, ls, v, e) =>
